@@ -11,6 +11,6 @@ def _pool(c, tier):
 def run(tier, seed):
     return _dbprop.run(PROP, tier, seed, [('fuzz', 16, 300), ('atom', 4, 40), ('sql', 6, 30)],
         ['inputs are sampled (random bytes through from_utf8_lossy, token soups, mutated valid statements, ill-typed statements, well-formed queries with LIMIT / OFFSET beyond the input); the specification supplies the admissible outcomes (result or error, state unchanged, pool alive)', 'every hostile input runs inside a session that is rolled back (or, in autocommit, is text that cannot be DML/DDL); contained panics whose signature is a recorded finding count as errors', 'each call runs under a 40 s watchdog in a separate engine thread; a leg with several client threads queues statements behind one that panics inside the executor'],
-        'inputs = hostile statements executed; after each one the session is probed, rolled back, and three trivial statements plus a full read-back run', mc=None, nontrivial_key='inputs', post=_conc, pre=_pool)
+        'inputs = hostile statements executed; after each one the session is probed, rolled back, and three trivial statements plus a full read-back run', mc=None, level='exploration', nontrivial_key='inputs', post=_conc, pre=_pool)
 def replay(path, seed):
     return dbcheck.replay_trace(PROP, path, seed)
